@@ -1151,3 +1151,94 @@ def long_path_cases(prefix, kinds, ascii_only=False):
             c.op("snap", t)
             cases.append(c)
     return cases
+
+
+def twin_overlay_cases(prefix):
+    """two OverlayFS instances over the SAME layers (a second handle on the same stack, or the stack re-opened later):
+    what one of them removed, re-created or wrote is what the other one sees - the state lives in the layers"""
+    cases = []
+    for bk in ("mem", "phys"):
+        for variant in ("file", "subtree", "retype", "dirfresh", "three"):
+            c = vfx.Case("%s_twin_%s_%s" % (prefix, bk, variant))
+            g = Cfg()
+            g.kind = "ovl_twin"
+            nb = 3 if variant == "three" else 2
+            for _ in range(nb):
+                c.base(bk)
+            insts = [c.fs("base", i) for i in range(nb)]
+            toks = []
+            for i in insts:
+                toks += [i, "-"]
+            a = c.fs("ovl", nb, *toks)
+            b = c.fs("ovl", nb, *toks)
+            g.target = b
+            g.upper = (insts[0], "")
+            g.lowers = [(i, "") for i in insts[1:]]
+            g.prepop = list(g.lowers)
+            g.watch = insts + [a]
+            g.has_phys = bk == "phys"
+            c.has_phys = g.has_phys
+            c.cfg = g
+            lo = insts[-1]
+            c.op("createdirall", vfx.ps(lo, "d/e"))
+            write_file(c, lo, "d/f", b"lower file")
+            write_file(c, lo, "d/e/h", b"deeper")
+            write_file(c, lo, "g", b"top file")
+            c.op("snap", a); c.op("snap", b)
+            # (no first_snap: the single-target contract oracle does not apply, the model is the reference)
+            if variant in ("file", "three"):
+                c.op("removefile", vfx.ps(a, "g"))
+                c.op("removefile", vfx.ps(a, "d/f"))
+            elif variant == "subtree":
+                c.op("removedirall", vfx.ps(a, "d"))
+            elif variant == "retype":
+                c.op("removefile", vfx.ps(a, "g"))
+                c.op("createdir", vfx.ps(a, "g"))
+            elif variant == "dirfresh":
+                c.op("removedirall", vfx.ps(a, "d"))
+                c.op("createdir", vfx.ps(a, "d"))
+            for q in ("g", "d", "d/f", "d/e", "d/e/h"):
+                c.op("probe", vfx.ps(b, q))
+            c.op("readdir", "%d:" % b)
+            c.op("walkdir", "%d:" % b)
+            h = c.op("appendfile", vfx.ps(b, "d/f")); c.op("hwrite", h, vfx.hexs(b"+")); c.op("hdrop", h)
+            c.op("snap", b); c.op("snap", a)
+            # now the second instance removes something itself, the first one looks
+            c.op("removefile", vfx.ps(b, "d/e/h"))
+            c.op("probe", vfx.ps(a, "d/e/h"))
+            c.op("snap", a); c.op("snap", b)
+            for w in insts:
+                c.op("snap", w)
+            cases.append(c)
+    return cases
+
+
+def big_text_cases(prefix, kinds):
+    """valid UTF-8 texts longer than any I/O buffer, with a multi-byte character across every multiple of 4096 bytes up to
+    64 KiB: written, read back as a string and through a handle, copied, appended to"""
+    rng = random.Random(67)
+    cases = []
+    text = ""
+    for k in range(1, 17):
+        text += "t" * (4096 * k - 1 - len(text.encode())) + ("é" if k % 2 else "日")
+    data = text.encode()
+    for kind in kinds:
+        c = vfx.Case("%s_bigtext_%s" % (prefix, kind))
+        g = build_config(c, kind, rng)
+        c.cfg = g
+        t = g.target
+        write_file(c, t, "big.txt", data)
+        c.op("snap", t)
+        c.first_snap = c.nops - 1
+        c.op("readtostring", vfx.ps(t, "big.txt"))
+        c.op("metadata", vfx.ps(t, "big.txt"))
+        c.op("copyfile", vfx.ps(t, "big.txt"), vfx.ps(t, "copy.txt"))
+        c.op("readtostring", vfx.ps(t, "copy.txt"))
+        h = c.op("appendfile", vfx.ps(t, "copy.txt")); c.op("hwrite", h, vfx.hexs("語".encode())); c.op("hdrop", h)
+        c.op("readtostring", vfx.ps(t, "copy.txt"))
+        h = c.op("openfile", vfx.ps(t, "big.txt")); c.op("hread", h, 4095); c.op("hread", h, 3); c.op("hreadtoend", h); c.op("hdrop", h)
+        c.op("snap", t)
+        for w in g.watch:
+            c.op("snap", w)
+        cases.append(c)
+    return cases
